@@ -41,7 +41,22 @@ CLAIMS = {
             'DESIGN.md §6 C12'),
 }
 
-NOT_YET = 'check not built yet in this session (see DESIGN.md §10 build order); not claimed until it is'
+CLAIMS['C20'] = (
+    'model_checking',
+    'exhaustive argument-string enumeration against an MS C-runtime argv model + explicit-state BFS over configure/regenerate histories on the real msbuild backend',
+    '(a) every argument string over {a, space, TAB, ", \\}^<=5/6 and all 1-2 character printable strings (minus '
+    'cmd.exe metacharacters), singly and in all ordered pairs of short strings, is joined with the real '
+    'bfg9000.shell.windows code and parsed back by a model of the Microsoft C runtime rules (pre- and post-2008 '
+    'variants) and by windows.split. (b) explicit-state breadth-first search to depth 3/4 over histories of script '
+    'edits (add/remove/retype a project of 4 MSBuild-representable kinds, toggle a dependency) interleaved with '
+    'configure and regenerate runs of the real backend; every reached solution is parsed and checked for '
+    'well-formedness, GUID uniqueness, dependency closure, agreement of .sln/.proj/.bfg_uuid, and GUID stability '
+    'along every transition.',
+    'trusted: models/msvcrt_argv.py (validated against Microsoft\'s documented examples); VC++ projects need MSVC '
+    'and are out of reach here',
+    'DESIGN.md §6 C20, Appendix B')
+
+NOT_YET ='check not built yet in this session (see DESIGN.md §10 build order); not claimed until it is'
 NOT_APPLICABLE = {}
 
 ALL = ['C%02d' % i for i in range(1, 21)]
